@@ -1,6 +1,7 @@
 package drivers
 
 import (
+	"sort"
 	"fmt"
 	"os"
 	"reflect"
@@ -262,6 +263,47 @@ func RunConfig(c *Ctx) error {
 			}
 		}
 		c.Tr.Emit("GenInvalid", world.F{"case": i, "refused": refused})
+	}
+	// invalid at the file level: every damaged version of a genesis file the node wrote itself
+	if good, err := os.ReadFile(gp); err == nil && len(good) > 4 {
+		other := genesis.NewGenesis("chain-y", 9, time.Unix(1700000001, 0).UTC(), []byte{9})
+		op := home + "/other.json"
+		other.Save(op)
+		second, _ := os.ReadFile(op)
+		cat := func(a []byte, b ...[]byte) []byte {
+			out := append([]byte(nil), a...)
+			for _, x := range b {
+				out = append(out, x...)
+			}
+			return out
+		}
+		damaged := map[string][]byte{
+			"empty":          {},
+			"truncated-half": good[:len(good)/2],
+			"truncated-last": good[:len(good)-2],
+			"trailing-brace": cat(good, []byte("}")),
+			"trailing-text":  cat(good, []byte("\n<<<<<<< HEAD\n")),
+			"two-objects":    cat(good, []byte("\n"), second),
+			"tail-of-longer": cat(good, second[len(second)/2:]),
+			"array":          []byte("[]"),
+			"null":           []byte("null"),
+			"not-json":       []byte("chain_id = \"chain-x\"\n"),
+		}
+		names := make([]string, 0, len(damaged))
+		for k := range damaged {
+			names = append(names, k)
+		}
+		sort.Strings(names)
+		for i, k := range names {
+			p := fmt.Sprintf("%s/damaged-%s.json", home, k)
+			refused := true
+			if os.WriteFile(p, damaged[k], 0o600) == nil {
+				if _, err := genesis.LoadGenesis(p); err == nil {
+					refused = false
+				}
+			}
+			c.Tr.Emit("GenInvalid", world.F{"case": 100 + i, "name": k, "refused": refused})
+		}
 	}
 	c.Count("options", len(leaves))
 	c.Count("flags", len(allFlags))
